@@ -318,6 +318,11 @@ def canon_out(steps, flush, ok, absf):
     return [[sorted(canon_mol(m, absf) for m in st) for st in steps], sorted(canon_mol(m, absf) for m in flush), ok]
 
 
+def run_partition(out):
+    """canon_out value -> (sorted list of all yielded molecules, ok flag)"""
+    return [sorted([m for st in out[0] for m in st] + list(out[1])), out[2]]
+
+
 def canon_run(run, absf):
     return canon_out(run['steps'], run['flush'], 1 if run['ok'] else 0, absf)
 
@@ -762,11 +767,16 @@ class Prop(fw.PropBase):
             return
         mout = fw.run_model('C07', 0, inputs)
         dis = []
+        n_timing = 0
         for i, (a, b) in enumerate(zip(mout, impl_out)):
             ci, cfg = index[i]
             absf = res[ci]['abs']
             a = canon_out(a[0], a[1], a[2], absf)
-            if a != b:
+            # the statement is about WHICH molecules come out (the partition) and that none is yielded while a later
+            # fragment still matches it (evaluated on the implementation's own run above); after which read a molecule
+            # leaves the buffer is scheduling: a difference there is recorded, the set of yielded molecules is compared
+            n_timing += (a != b)
+            if run_partition(a) != run_partition(b):
                 dis.append({'case': ci, 'cfg': cfg, 'frags': cases[ci]['frags'], 'cls': cases[ci]['cls'],
                             'model': a, 'impl': b, 'impl_error': res[ci]['runs'][case_cfg_index(cases[ci], cfg)]['error']})
         # histories on one iterator object (mode 4): object state after every abandoned pass + the complete pass
@@ -795,6 +805,8 @@ class Prop(fw.PropBase):
             est = [b for b in est if b is not None]
             e = [est, e[1]]
             mrun = canon_out(m[1][0], m[1][1], m[1][2], absf)
+            n_timing += (mrun != e[1])
+            mrun, e = run_partition(mrun), [e[0], run_partition(e[1])]
             n_dirty += any(st[0] for st in e[0])
             # what an abandoned pass leaves in the buffers is object state, not behaviour the statement constrains (every
             # new pass starts by clearing it): recorded for information; the complete pass that follows is compared
@@ -803,6 +815,7 @@ class Prop(fw.PropBase):
                 dis.append({'case': ci, 'cfg': h['cfg'], 'history_ks': h['ks'], 'frags': cases[ci]['frags'], 'cls': cases[ci]['cls'],
                             'model': [mst, mrun], 'impl': e, 'impl_error': None})
         self.cov['histories_validated_against_impl'] = len(hin)
+        self.cov['info_runs_where_the_ejection_timing_differs_from_the_model'] = n_timing
         self.cov['histories_with_nonempty_buffer_left_by_an_abandoned_pass'] = n_dirty
         self.cov['info_histories_where_the_left_over_buffer_differs_from_the_model'] = n_state_diff
         mpre = fw.run_model('C07', 1, [p[0] for p in pre_inputs])
